@@ -516,6 +516,18 @@ func (self *Interpreter) memberExpression(node ast.AnalyzedMemberExpression) (*v
 		return nil, i
 	}
 
+	// `->` and `~>` access the data fields of an any-object
+	if node.Operator != pAst.DotMemberOperator {
+		field := (*base).(value.ValueAnyObject).FieldsInternal[node.Member.Ident()]
+		if node.Operator == pAst.ArrowMemberOperator {
+			return value.NewValueOption(field), nil
+		}
+		if field == nil {
+			return nil, value.NewThrowInterrupt(node.Span(), "Called 'unwrap' on a 'null' option value")
+		}
+		return field, nil
+	}
+
 	fields, i := (*base).Fields()
 	if i != nil {
 		return nil, i
